@@ -134,4 +134,8 @@ PROPS = {
                          'hand semantics of struct pack/unpack, numpy intc wrap, segyio sample formula arange(n)*(dt/1000.0)+t0'],
                 assumptions=['sample axis: proved on the finite domain zs_dom written in each statement (all intervals 1..65535 us at start 0; start times -32768..32767 ms for interval 1001 us; ...); other float combinations are sampled by the harness',
                              'D26 (NumPy route: Python list axes raise AttributeError before anything is written; fractional start time truncated) recorded as a note']),
+    'C12': dict(gen_targets=['Reblock', 'Reader', 'Utils', 'Version'], pins=pins_of('C12'), harness='reblock.py',
+                trusted=['tools/genx_reblock.py (fail-closed extraction of the asserts, header patches, loop bounds, i_count/x_count, seek offsets, slices, footer writes of convert_to_adv_sgz)',
+                         'hand model coq/Model/Reblock.v: bytearray slice assignment as a length-changing splice, file reads short at end of file, struct.pack ranges'],
+                assumptions=['decoded floats abstract (unit-locality)', 'a fresh converter object (no earlier header reads on it: C15)', 'numpy frombuffer/tobytes byte round trip of footer arrays checked by the harness only']),
 }
